@@ -18,7 +18,8 @@ VALUES = {
 }
 SLOTS = ["time", "measurement", "tag_key", "tag_value", "field_key", "field_value", "tags", "fields"]
 ENTRIES = ["constructor", "setter", "insert", "update_static", "update_callable", "update_callable_indexed",
-           "update_callable_same_key", "update_callable_later_point", "update_static_pairs"]
+           "update_callable_same_key", "update_callable_later_point", "update_static_pairs", "update_static_both",
+           "insert_same_object_twice"]
 
 
 def hashable(v):
@@ -145,6 +146,32 @@ class Family:
                         good = (1 if v is True else 0 if v is False else 5)
                         db.update_all(fields=lambda old, val=v, good=good: (
                             calls.append(1), {"k": (good if len(calls) == 1 else val), "level": 1})[1])
+                elif entry == "update_static_both":
+                    # a valid static value for the *other* set in the same call must not switch the check off
+                    if slot not in ("tag_key", "tag_value", "field_key", "field_value"):
+                        return "skip", None
+                    db.insert(base)
+                    kw = kw_for(slot, v)
+                    if not any(bool(x) for x in kw.values()):
+                        return "skip", None
+                    other = {"fields": {"ok": 1}} if "tags" in kw else {"tags": {"ok": "yes"}}
+                    db.update_all(**kw, **other)
+                elif entry == "insert_same_object_twice":
+                    # a generator hands over the same Point object twice, editing it in between (a reused row buffer)
+                    # (CSV only: MemoryStorage holds the caller's object, which the caller then edits)
+                    if slot not in ("tag_value", "field_value") or storage == "mem":
+                        return "skip", None
+                    p = tf.Point(time=T, measurement="m", tags={"k": "x"}, fields={"k": 1})
+
+                    def rows(p=p, val=v):
+                        yield p
+                        if slot == "tag_value":
+                            p.tags["k"] = val
+                        else:
+                            p.fields["k"] = val
+                        yield p
+
+                    db.insert_multiple(rows())
                 elif entry == "update_static_pairs":
                     # a static argument must be a mapping: an iterable of pairs is not one (and is not validated
                     # like one), whatever it carries
